@@ -75,11 +75,9 @@ func Round(x float64, prec jtypes.OptionalInt) float64 {
 			x = math.Ceil(intermed)
 		}
 	} else {
-		if x < 0 {
-			x = math.Ceil(intermed - 0.5)
-		} else {
-			x = math.Floor(intermed + 0.5)
-		}
+		// Don't round by adding 0.5 and truncating. The sum is
+		// itself rounded, e.g. 0.49999999999999994 + 0.5 is 1.
+		x = math.Round(intermed)
 	}
 
 	if x == 0 {
